@@ -17,7 +17,7 @@ func init() {
 		ID: "C12", Fn: c12,
 		Rule:        "one evaluation = one judged protocol step of a generated protocol-valid UCI session fed to the real UciHandler.Loop through pipes (every line sent/received time-stamped): exactly one bestmove per go at every quiescent point; no bestmove of an infinite/ponder search before its stop (or ponderhit); final 'info depth' == limit for depth searches; readyok for every isready also while searching; bestmove after stop within allowance; handler position (verif accessor) == refchess replay of the position command; go depth after ucinewgame == same go on a fresh handler; Print Config before/after every setoption differs in exactly the named field; sessions include zero-delay go-after-bestmove, stop right after go, isready storms, ponderhit early/late; distinct = distinct (session, step) scripts",
 		Assumptions: []string{"fresh engine for the ucinewgame clause = a newly created UciHandler in the same process (configuration is process-global)", "stop-promptness allowance 700 ms under parallel load, exceedances re-run serially"},
-		Required:    []string{"sessions", "go_commands", "bestmoves", "go_depth", "go_infinite", "go_ponder_stop", "go_ponderhit", "go_ponder_without_clock", "go_movetime", "go_clock", "isready_during_search", "position_checks", "position_with_moves", "newgame_equalities", "newgame_while_hash_off", "setoption_checks", "zero_delay_go_after_bestmove", "stop_right_after_go"},
+		Required:    []string{"sessions", "go_commands", "bestmoves", "go_depth", "go_infinite", "go_ponder_stop", "go_ponderhit", "go_ponder_without_clock", "go_movetime", "go_clock", "isready_during_search", "position_checks", "position_with_moves", "newgame_equalities", "newgame_while_hash_off", "setoption_checks", "setoption_with_other_option_non_default", "zero_delay_go_after_bestmove", "stop_right_after_go"},
 		MinEvals:    2000,
 		TimeoutQ:    25 * 60e9,
 		TimeoutT:    150 * 60e9,
@@ -526,12 +526,23 @@ func (x *c12ctx) newGameEquality() {
 }
 
 func (x *c12ctx) setOptionCheck() {
+	name := optionNames[x.r.Intn(len(optionNames))]
+	if x.r.Chance(0.25) {
+		// options are not independent inside the engine (the hash size is used when the table
+		// is created, the table only exists while Use_Hash is on, ...): set one option while
+		// another one it interacts with is in its non-default state
+		pre := []string{"setoption name Use_Hash value false", "setoption name Use_Hash value false", "setoption name Use_Book value false", "setoption name Use_QHash value false"}[x.r.Intn(4)]
+		x.u.send(pre)
+		if x.r.Chance(0.6) {
+			name = "Hash"
+		}
+		x.rep.Inc("setoption_with_other_option_non_default")
+	}
 	before := x.u.printConfig()
 	if before == nil || len(before) < 40 {
 		x.rep.Viol("print-config:unparseable", fmt.Sprintf("Print Config produced %d parseable fields", len(before)), x.payload(nil))
 		return
 	}
-	name := optionNames[x.r.Intn(len(optionNames))]
 	var val string
 	switch {
 	case name == "Hash":
@@ -577,10 +588,9 @@ func (x *c12ctx) setOptionCheck() {
 			x.rep.Viol("setoption:changes-other-option:"+k, fmt.Sprintf("%s changed %s from %s to %s", what, k, v, nv), x.payload(nil))
 		}
 	}
-	if name == "Use_Hash" || name == "Hash" || x.r.Chance(0.3) {
-		// keep later searches cheap and comparable
-		x.u.send("setoption name Use_Hash value true")
-	}
+	// keep later searches cheap and comparable
+	x.u.send("setoption name Use_Hash value true")
+	x.u.send("setoption name Use_QHash value true")
 }
 
 func c12(c *Ctx) {
